@@ -177,6 +177,19 @@ func (t *zzvTree) run() {
 			zzverif.Assert(v == n.new, "when the rewrite completes every file holds its target value")
 		}
 	}
+	// files whose value is unchanged are not rewritten (by any pass: merge or exact)
+	for _, n := range t.nodes {
+		written := zzverif.FileWritten(t.path(n))
+		if t.isSet {
+			a, _ := cpuset.Parse(n.oldSet)
+			b, _ := cpuset.Parse(n.newSet)
+			if a.Equals(b) {
+				zzverif.Assert(!written, "a CPU set file whose value is unchanged is not rewritten")
+			}
+		} else {
+			zzverif.Assert(zzverif.Implies(n.old == n.new, !written), "a file whose value is unchanged is not rewritten")
+		}
+	}
 	zzverif.Reach("end")
 }
 
